@@ -102,6 +102,8 @@ pub enum Op {
     Remove { k: u16 },
     RemoveWeak { k: u16 },
     Batch { items: Vec<(u16, WKind)> },
+    /// write `n` consecutive pool keys starting at index fraction `start` (bulk load / bulk delete)
+    Fill { start: u16, n: u16, len: u8, del: bool, one_seqno: bool },
     Rotate,
     Flush { wm: u16 },
     FlushActive { wm: u16 },
